@@ -518,6 +518,24 @@ fn wire_pats(sig: &Sig, rk: &BTreeMap<String, usize>, ps: &[P]) -> String {
     format!("({})", ps.iter().map(|p| wire_pat(sig, rk, p)).collect::<Vec<_>>().join(" "))
 }
 
+fn wire_val(sig: &Sig, rk: &BTreeMap<String, usize>, ty: Ty, v: &V) -> String {
+    match (v, ty) {
+        (V::I(n), _) => format!("(i {})", n),
+        (V::B(b), _) => format!("(b #{})", hex::encode(b)),
+        (V::K(ci, args), Ty::Data(t)) => {
+            let c = &sig[t].ctors[*ci];
+            let mut s = format!("(V {}", rk[&c.name]);
+            for (a, f) in args.iter().zip(&c.fields) {
+                s.push(' ');
+                s.push_str(&wire_val(sig, rk, *f, a));
+            }
+            s.push(')');
+            s
+        }
+        (V::K(..), _) => "?".into(),
+    }
+}
+
 fn request(case: &Case) -> String {
     let rk = ranks(&case.sig);
     format!("match check {} {}", wire_sig(&case.sig, &rk), wire_pats(&case.sig, &rk, &case.clauses))
@@ -1100,6 +1118,9 @@ struct Outcome {
     /// (key prefix, what, detail)
     failures: Vec<(String, String, serde_json::Value)>,
     skip: bool,
+    /// a few enumerated values (wire form) with the brute-force first-match index: the harness's
+    /// matcher (which judges the real checker) is itself compared with the Lean spec
+    probes: Vec<(String, Option<usize>)>,
 }
 
 /// index of the clause whose pattern text contains byte offset `at`
@@ -1182,6 +1203,7 @@ fn evaluate(case: &Case, rd: &Rendered) -> Outcome {
     let en = Enum::new(sig, &all);
     if !en.inhabited(case.scrut) {
         o.counts.push("scrutinee-uninhabited".into());
+        if std::env::var("C07_DEBUG").is_ok() { eprintln!("UNINHABITED {}", rd.src.replace('\n', " | ")); }
         return o;
     }
     let depth = all.iter().map(|p| pat_depth(p)).max().unwrap_or(0) + 1;
@@ -1206,6 +1228,14 @@ fn evaluate(case: &Case, rd: &Rendered) -> Outcome {
     o.counts.push(format!("values:{}", bucket(values.len())));
     let firsts: Vec<Option<usize>> = values.iter().map(|v| first_match(&case.clauses, v)).collect();
     let unmatched: Vec<usize> = (0..values.len()).filter(|i| firsts[*i].is_none()).collect();
+    if !values.is_empty() {
+        let n = values.len();
+        let mut idx = vec![0, n / 3, (2 * n) / 3, n - 1];
+        idx.dedup();
+        for i in idx {
+            o.probes.push((wire_val(sig, &rk, case.scrut, &values[i]), firsts[i]));
+        }
+    }
     let show = |i: usize| show_val(sig, case.scrut, &values[i]);
     match &real {
         Real::Ok => {
@@ -2019,6 +2049,47 @@ pub fn check(ctx: &Ctx) -> Report {
         let replies = par_map(&chunks, threads.min(8), |c| driver::run(c));
         for r in replies {
             model.extend(r);
+        }
+    }
+
+    // ── the spec side of the model (firstMatch / firstBind / decision tree with heuristic k) on
+    //    probe values, against the brute-force matcher used above
+    {
+        let mut sreqs: Vec<String> = vec![];
+        let mut expect: Vec<String> = vec![];
+        for (i, case) in cases.iter().enumerate() {
+            let (_, o) = &results[i];
+            if o.skip || o.probes.is_empty() {
+                continue;
+            }
+            let rk = ranks(&case.sig);
+            let sg = wire_sig(&case.sig, &rk);
+            let ps = wire_pats(&case.sig, &rk, &case.clauses);
+            for (j, (v, fm)) in o.probes.iter().enumerate() {
+                let e = match fm {
+                    Some(k) => format!("some {}", k),
+                    None => "none".to_string(),
+                };
+                sreqs.push(format!("match tree {} {} {} {}", i + j, sg, ps, v));
+                expect.push(e.clone());
+                if j == 0 {
+                    sreqs.push(format!("match first {} {} {}", sg, ps, v));
+                    expect.push(e);
+                }
+            }
+        }
+        let chunks: Vec<&[String]> = sreqs.chunks(20000).collect();
+        let replies: Vec<String> = par_map(&chunks, threads.min(8), |c| driver::run(c)).into_iter().flatten().collect();
+        for (k, r) in replies.iter().enumerate() {
+            rep.evaluations += 1;
+            // `first` also prints the (empty) binding list
+            let got = r.strip_suffix(" ()").unwrap_or(r);
+            if got == expect[k] {
+                rep.count("spec-probe:agree");
+            } else {
+                rep.count("spec-probe:disagree");
+                rep.disagree(&format!("spec:{}", sreqs[k]), &sreqs[k], &format!("brute-force first match: {}", expect[k]), r);
+            }
         }
     }
 
